@@ -196,7 +196,7 @@ pub fn apply<'r>(w: &World<'r>, s: &mut AnyScanner<'r>, op: &Op) -> Option<&'sta
             Some(r.unwrap_or("panic"))
         }
         (Op::ScanOpts { buf, bad_meta }, AnyScanner::Contig(sc)) => {
-            let meta: &[u8] = if *bad_meta { b"{not json" } else { br#"{"network":{"dns":[{"request":"evil.example","ip":"1.2.3.4"}]}}"# };
+            let meta: &[u8] = if *bad_meta { b"{not json" } else { br#"{"network":{"domains":[{"domain":"evil.example","ip":"1.2.3.4"}]}}"# };
             let r = catch(AssertUnwindSafe(|| {
                 let opts = yara_x::ScanOptions::new().set_module_metadata("cuckoo", meta);
                 match sc.scan_with_options(&bufs[*buf], opts) { Ok(r) => dump_results(&r).tag(), Err(e) => err_outcome(&e).tag() }
